@@ -83,7 +83,11 @@ def must_check(ctx, fb):
             for c in calls:
                 # every path from the DisallowOverlap arm entry to Ok passes the negative edge of the call's switch
                 pass
-        ctx.inst(R, p.split(' as ')[0].split('::')[-1].strip('<') + ':disallow-arm-checks', dis_ok and bool(calls) and _ok_only_after_negative(f, calls, oks, fb),
+        # every path from the DisallowOverlap arm to an Ok exit passes the overlap check
+        region = set(b for b in range(len(f.bbs)) if any(vs == {'DisallowOverlap'} for g, h, vs, place in guards_variant(f, b, fb) if h and h.endswith('OverlapPolicy')))
+        entries = [b for b in region if not any(p_ in region for p_ in f.pred()[b])]
+        all_pass = bool(entries) and all(f.all_paths_pass(e, oks, {c.bb for c in calls}) for e in entries)
+        ctx.inst(R, p.split(' as ')[0].split('::')[-1].strip('<') + ':disallow-arm-checks', dis_ok and bool(calls) and all_pass and _ok_only_after_negative(f, calls, oks, fb),
                  'on the DisallowOverlap arm Ok(layout) is reached only through the false edge of may_have_internal_overlap(shape, strides)', f.loc())
     f = fb.fn('rten_tensor::tensor::TensorBase::<S, L>::from_storage_and_layout')
     if ctx.anchor(R, 'fn from_storage_and_layout', f is not None and f.has_mir()):
